@@ -70,3 +70,47 @@ def run_ambient(ctx, pid, timeout=900):
         ctx.monitor_error('ambient', RuntimeError('repository tests fail under the probe layer: ' + ctx.extra['ambient_repo_tests']))
         return
     ctx.ok('ambient', ('ambient', pid))
+
+
+def ambient_docs_case(pid):
+    return {'kind': 'ambient-docs', 'seed': 0, 'params': {'monitor': pid}}
+
+
+def run_ambient_docs(ctx, pid, per_script_timeout=90, workers=8):
+    """W-amb (documentation): every runnable example script under documentation/ is executed in its own subprocess with
+    the probe layer and this property's monitor; scripts that need missing third-party modules end early and are counted"""
+    import os, sys, json, glob, subprocess, tempfile
+    from concurrent.futures import ThreadPoolExecutor
+    from . import boot
+    repo = boot.repo_path()
+    scripts = sorted(glob.glob(os.path.join(repo, 'documentation', 'sphinx', 'examples', '*.py')) +
+                     glob.glob(os.path.join(repo, 'documentation', 'sphinx', '*.py')) + glob.glob(os.path.join(repo, 'documentation', '*.py')))
+    runner = os.path.join(boot.VERIF, 'adsan', 'run_under_probe.py')
+    status = {}
+    with tempfile.TemporaryDirectory(prefix='adsan_docs_') as td:
+        def one(sc):
+            out = os.path.join(td, os.path.basename(sc) + '.json')
+            try:
+                subprocess.run([sys.executable, runner, sc, out, pid], cwd=repo, stdout=subprocess.DEVNULL, stderr=subprocess.DEVNULL,
+                               timeout=per_script_timeout, env=dict(os.environ, PYTHONDONTWRITEBYTECODE='1', MPLBACKEND='Agg'))
+            except subprocess.TimeoutExpired:
+                return sc, None
+            return sc, (json.load(open(out)) if os.path.exists(out) else None)
+        with ThreadPoolExecutor(workers) as ex:
+            results = list(ex.map(one, scripts))
+    cases = ctx.cases
+    ran = 0
+    for sc, d in results:
+        name = os.path.basename(sc)
+        if d is None:
+            ctx.skip('docs-timeout-or-no-output'); status[name] = 'timeout'; continue
+        if not os.path.realpath(d['algopy_file']).startswith(repo + os.sep):
+            ctx.monitor_error('ambient-docs', RuntimeError('imported %s' % d['algopy_file'])); continue
+        status[name] = d['status'][:60]
+        if d['probe_calls']:
+            ran += 1
+        ctx.merge(d['ctx'][pid])
+    ctx.cases = cases
+    ctx.extra['documentation_scripts'] = status
+    if ran:
+        ctx.ok('ambient-docs', ('ambient-docs', pid, ran))
